@@ -1,5 +1,6 @@
 #!/usr/bin/env python3
 
+import numbers
 import numpy as np
 
 
@@ -49,9 +50,9 @@ def davenportSpectrumWithDragCoef( n, delta1, kappa=0.005, normalized=True ):
        near the ground in high winds. Quarterly Journal of the Royal Meteorological 
        Society, 87(372), pp.194-211.
     '''
-    if not isinstance( n, int ) and not isinstance( n, float ):
+    if not isinstance( n, numbers.Real ):
         raise ValueError( "n should be a scalar" )
-    if not isinstance( delta1, int ) and not isinstance( delta1, float ):
+    if not isinstance( delta1, numbers.Real ):
         raise ValueError( "delta1 should be a scalar" )
 
     def rightPart( x ):
@@ -116,9 +117,9 @@ def davenportSpectrumWithRoughnessLength( n, uz, z=10, z0=0.03, normalized=True 
        low buildings. London, Canada: BLWTSS20-2003, Boundary-Layer Wind Tunnel 
        Laboratory, Univ. of Western Ontario.
     '''
-    if not isinstance( n, int ) and not isinstance( n, float ):
+    if not isinstance( n, numbers.Real ):
         raise ValueError( "n should be a scalar" )
-    if not isinstance( uz, int ) and not isinstance( uz, float ):
+    if not isinstance( uz, numbers.Real ):
         raise ValueError( "uz should be a scalar" )
 
     def rightPart( x ):
@@ -180,9 +181,9 @@ def ec1Spectrum( n, uz, sigma=0.03, z=10, tcat=0, normalized=True ):
     ----------
     .. [EN1991-1-42005] EN1991-1-4, 2005. Eurocode 1: Actions on structures.
     '''
-    if not isinstance( n, int ) and not isinstance( n, float ):
+    if not isinstance( n, numbers.Real ):
         raise ValueError( "n should be a scalar" )
-    if not isinstance( uz, int ) and not isinstance( uz, float ):
+    if not isinstance( uz, numbers.Real ):
         raise ValueError( "uz should be a scalar" )
     if not isinstance( tcat, int ):
         raise ValueError( "tcat should be an integer" )
@@ -258,9 +259,9 @@ def iecSpectrum( f, vhub, sigma=0.03, z=10, k=1, normalized=True ):
     ----------
     .. [IEC2005] IEC, 2005. IEC 61400-1, Wind turbines - Part 1: Design requirements.
     '''
-    if not isinstance( f, int ) and not isinstance( f, float ):
+    if not isinstance( f, numbers.Real ):
         raise ValueError( "f should be a scalar" )
-    if not isinstance( vhub, int ) and not isinstance( vhub, float ):
+    if not isinstance( vhub, numbers.Real ):
         raise ValueError( "vhub should be a scalar" )
     if not isinstance( k, int ):
         raise ValueError( "k should be an integer" )
@@ -323,9 +324,9 @@ def apiSpectrum( f, u0, z=10 ):
        Recommnded practice for planning, designing and constructing fixed offshore 
        platforms - working stress design.
     '''
-    if not isinstance( f, int ) and not isinstance( f, float ):
+    if not isinstance( f, numbers.Real ):
         raise ValueError( "f should be a scalar" )
-    if not isinstance( u0, int ) and not isinstance( u0, float ):
+    if not isinstance( u0, numbers.Real ):
         raise ValueError( "u0 should be a scalar" )
 
     n = 0.468
